@@ -28,5 +28,14 @@ with concurrent.futures.ThreadPoolExecutor(max_workers=6) as ex:
         print(p, r)
 for p in props:
     mod = importlib.import_module("checks." + p.lower())
+    try:
+        mod.CHECK.generate()
+    except Exception as e:  # noqa
+        print(p, "generate FAILED:", e)
+    rc, out = core.lake_build([f"IcingaProofs.{p}"])
+    print(p, "proofs", "ok" if rc == 0 else "FAILED\n" + out[-1500:])
     if mod.CHECK.has_driver:
-        core.build_driver(p)
+        try:
+            core.build_driver(p)
+        except Exception as e:  # noqa
+            print(p, "driver FAILED:", e)
